@@ -6,8 +6,13 @@ the top, imports inside class bodies, ``__all__`` composed from other modules' `
 spelling griffe parses, the other module being named directly or through aliases, in chains and rings),
 loaded into one collection in both orders, with ``resolve_aliases`` repeated three times for every
 (implicit, external) setting.
-Monitors: exception monitor on load / resolve_aliases; walker touching every alias;
-all-or-nothing chain check; fixpoint comparison of passive snapshots; M-MON step budget and
+Further inputs: classes with bases / decorators named through imports and a base class holding imports in its body
+(inherited aliases); 2-4 packages importing from each other by wildcard and by name, in cycles, of which only a subset is
+loaded explicitly (the rest arrives in the middle of expansion / resolution, external in True / None with ``_pkg`` siblings /
+False); a plain reference package whose aliases are all resolvable.
+Monitors: exception monitor on load / resolve_aliases; walker reading, on every alias (stored in the tree, inherited by a
+class, shown by an alias as member / inherited member of its target), everything ``griffe.Alias`` offers for reading
+(enumerated by introspection); all-or-nothing chain check; fixpoint comparison of passive snapshots; M-MON step budget and
 stack depth ("terminates" restated as bounded logical progress).
 """
 from __future__ import annotations
@@ -31,11 +36,25 @@ RULE = ("random import graphs: 7 modules (packages p, p.s, q; modules p.a, p.b, 
         "facade module re-exporting it under another name, a dotted path through such a name, two chained facades, the "
         "list imported through the facade), through a wildcard only, through a cyclic alias, or unbound; open chains end in a plain list, a missing "
         "module or a non-module; 25% are re-export rings; both package load orders; implicit x external in "
-        "{False,True}x{False,None}; resolve_aliases called 3 times. distinct = digest of files+options; non-trivial = "
-        "graph has an import cycle (any form) or a dangling target")
+        "{False,True}x{False,None,True}; resolve_aliases called 3 times. Classes with bases / functions with decorators named "
+        "by (possibly imported, unresolvable, cyclic) names, class K with 1-2 imports in its body and optional bases, 30% of "
+        "the random graphs get a Base class (members + imports in its body) imported elsewhere (renamed, via a third module) "
+        "as the base of a Derived class; 8% re-export chains over 3-4 packages with only a prefix loaded; 12% graphs over 2-4 "
+        "packages (p, _p, q, _q, r, _r) with wildcard / named / mixed imports going both ways, hops in submodules or class "
+        "bodies or going through an alias of the other package (`import q as N` + `from p.N import *`), a subset loaded "
+        "explicitly, external in {True,None,False}; re-export rings have spectator modules that import the ring's name and "
+        "rebind it; per shard one plain reference package. "
+        "distinct = digest of files+options; non-trivial = graph has an import cycle (any form) or a dangling target")
 LEVEL_TEXT = ("Every generated graph is loaded and resolved by the real loader under an exception monitor, a function-entry "
-              "step budget and a stack-depth bound; afterwards every alias of the tree is dereferenced through 30 accessors "
-              "and must answer or raise only AliasResolutionError/CyclicAliasError; resolved chains are walked passively "
+              "step budget and a stack-depth bound; afterwards every alias - stored in the tree (modules and classes), inherited "
+              "by a class, or shown by an alias as a member / inherited member of its target (capped per case) - is read "
+              "through every public property, plain attribute, no-argument method (also with each boolean keyword switched on) "
+              "and repr/bool/len that griffe.Alias offers (74 reads, enumerated by introspection; resolve_target, an action, is "
+              "not called) and must answer, or raise AliasResolutionError/CyclicAliasError, or - only for a name real objects "
+              "have too, on a chain that ends in an object - raise the AttributeError/ValueError/BuiltinModuleError that the "
+              "same read on that object raises (compared at run time; a plain reference package shows the set); "
+              "RecursionError, RuntimeError, KeyError, TypeError, anything else, or more than 200 000 function entries for one "
+              "read are violations; resolved chains are walked passively "
               "to confirm no unresolved link; passive snapshots after the 1st, 2nd and 3rd resolve_aliases() must be equal.")
 LEVEL_NOTE = ("bounded to 7 modules / 4 names / <=5 statements per module; step budget 10^6 function entries and depth "
               "bound are calibrated from the observed maxima (reported in the evidence); wall-clock watchdog only as "
@@ -51,6 +70,7 @@ REQUIRED_COUNTERS = ["graphs_loaded", "aliases_walked", "accessor_calls", "resol
 EXHAUSTIVE = {"quick": False, "thorough": False}
 ASSUMPTIONS = ["termination is judged as bounded logical progress (function entries in _griffe), not wall-clock"]
 STEP_BUDGET = 1_000_000
+ACCESS_BUDGET = 200_000   # function entries in _griffe for one read of one alias
 WILDCARD_CREATED: set[int] = set()
 PACKAGES_LOADED: list[str] = []  # M-EXT: names of packages in the order on_package_loaded fired (nested loads included)
 _KEEPALIVE: list = []
@@ -70,10 +90,124 @@ def make_extension():  # noqa: ANN201
             PACKAGES_LOADED.append(pkg.name)
 
     return Recorder()
-ACCESSORS = ["resolved", "target", "final_target", "kind", "members", "docstring", "lineno", "path", "canonical_path",
-             "is_public", "has_docstrings", "as_json", "is_exported", "aliases", "labels", "imports", "module", "package",
-             "is_module", "is_class", "is_function", "is_attribute", "inherited_members", "all_members", "lines", "source",
-             "filepath", "exports", "is_wildcard_exposed", "is_imported"]
+# -- accessors: everything `griffe.Alias` offers for reading, enumerated by introspection ------------------------------------
+# Not called: anything that needs an argument, class/static methods, and actions that re-bind the link instead of reading it.
+ACTIONS = {"resolve_target"}
+PROTOCOLS = (("__repr__", repr), ("__str__", str), ("__bool__", bool), ("__len__", len))
+# Names the deciding counters rely on (a cross-check of the introspection: when `griffe.Alias` stops offering one of them, or
+# the enumeration misses it, its `acc:` counter stays 0 and the run is inconclusive).  Labels: property -> name, method ->
+# `name()`, boolean keyword switched on -> `name(kw=True)`.
+EXPECTED_READS = ["aliases", "all_members", "annotation", "attributes", "bases", "canonical_path", "classes", "decorators",
+                  "deleter", "docstring", "endlineno", "exports", "extra", "filepath", "final_target", "functions",
+                  "has_docstring", "has_docstrings", "imports", "imports_future_annotations", "inherited_members",
+                  "is_attribute", "is_class", "is_class_private", "is_deprecated", "is_exported", "is_function", "is_imported",
+                  "is_init_module", "is_module", "is_namespace_package", "is_namespace_subpackage", "is_package", "is_private",
+                  "is_public", "is_special", "is_subpackage", "is_wildcard_exposed", "kind", "labels", "lineno", "lines",
+                  "lines_collection", "members", "module", "modules", "modules_collection", "overloads", "package",
+                  "parameters", "parent", "path", "relative_filepath", "relative_package_filepath", "resolved",
+                  "resolved_bases", "returns", "setter", "source", "target", "value", "wildcard",
+                  "as_dict()", "as_dict(full=True)", "as_json()", "as_json(full=True)", "mro()", "filter_members()",
+                  "has_labels()", "repr()", "bool()", "len()", "is_alias", "is_collection"]
+# Reads that go down the chain: on a cyclic chain each of them must have been seen reporting CyclicAliasError (`cyc:` counters).
+# (`as_dict`/`as_json`, `kind`, `has_docstring(s)` answer for the alias itself when the chain cannot be followed; `repr`/`bool`/
+# `len`, `path`, `parent`, `resolved`, `wildcard` and the `is_*` predicates computed from the alias' own name and position do
+# not dereference; `target` reports the cycle when it is the read that discovers it.)
+EXPECTED_DEREFERENCING = ["aliases", "all_members", "annotation", "attributes", "bases", "canonical_path", "classes",
+                          "decorators", "deleter", "docstring", "endlineno", "exports", "extra", "filepath", "final_target",
+                          "functions", "imports", "imports_future_annotations",
+                          "inherited_members", "is_attribute", "is_class", "is_function", "is_init_module", "is_module",
+                          "is_namespace_package", "is_namespace_subpackage", "is_package", "is_subpackage", "labels",
+                          "lineno", "lines", "lines_collection", "members", "module", "modules", "overloads", "package",
+                          "parameters", "relative_filepath", "relative_package_filepath", "resolved_bases", "returns", "setter",
+                          "source", "target", "value", "mro()", "filter_members()", "has_labels()"]
+REQUIRED_COUNTERS += ["reference_packages_walked", "aliases_walked_tree", "aliases_walked_inherited", "aliases_walked_member-view",
+                      "aliases_walked_inherited-view", "soft_error_same_as_target",
+                      # chains of links that are all resolved and form a cycle: only `final_target` guards them (aa9f86e)
+                      "resolved_cycles_seen", "resolved_cycle_reported_as_cyclic",
+                      # the class of C06-nested-load-mutates-members (2d794b3, ed4295e) was in the input
+                      "packages_pulled_in_by_resolution", "pulled_in_package_wildcard_imports_back",
+                      "private_sibling_pulled_in_with_external_none", "wildcard_through_alias_of_package_pulled_in_by_resolution"]
+REQUIRED_COUNTERS += [f"acc:{n}" for n in EXPECTED_READS] + [f"cyc:{n}" for n in EXPECTED_DEREFERENCING]
+_ACCESSORS: list | None = None
+_PROXIED: set | None = None
+DERIVED_CAP = 20     # member views / inherited aliases walked per case beyond the aliases stored in the tree
+
+
+def _reader(name: str):  # noqa: ANN202
+    return lambda obj: getattr(obj, name)
+
+
+def _caller(name: str, kwargs: dict):  # noqa: ANN202
+    return lambda obj: getattr(obj, name)(**kwargs)
+
+
+def accessors() -> list[tuple[str, str, object]]:
+    """[(label, attribute name, function of the alias)] - every public property / plain attribute of ``griffe.Alias``, every
+    public method callable without arguments (also once per boolean keyword switched on), and the no-argument protocols
+    (repr, bool, len) the class defines.  Sorted by name: deterministic."""
+    global _ACCESSORS  # noqa: PLW0603
+    if _ACCESSORS is not None:
+        return _ACCESSORS
+    import inspect
+
+    import griffe
+
+    cls = griffe.Alias
+    out: list[tuple[str, str, object]] = []
+    for name in sorted(dir(cls)):
+        if name.startswith("_") or name in ACTIONS:
+            continue
+        static = inspect.getattr_static(cls, name)
+        if isinstance(static, (classmethod, staticmethod)):
+            continue
+        if inspect.isfunction(static):
+            params = list(inspect.signature(static).parameters.values())[1:]
+            if any(p.default is p.empty and p.kind not in (p.VAR_POSITIONAL, p.VAR_KEYWORD) for p in params):
+                continue
+            out.append((f"{name}()", name, _caller(name, {})))
+            out.extend((f"{name}({p.name}=True)", name, _caller(name, {p.name: True})) for p in params if p.default is False)
+        else:   # property or plain class attribute
+            out.append((name, name, _reader(name)))
+    defined = set().union(*(vars(k) for k in cls.__mro__[:-1]))
+    out.extend((f"{fn.__name__}()", dunder, fn) for dunder, fn in PROTOCOLS if dunder in defined)
+    _ACCESSORS = out
+    return out
+
+
+def proxied_names() -> set[str]:
+    """Names that exist on real objects too (module, class, function, attribute, ...): only for those can an alias answer
+    with the AttributeError / ValueError / BuiltinModuleError its target gives.  Taken from fresh objects, not hard-coded."""
+    global _PROXIED  # noqa: PLW0603
+    if _PROXIED is None:
+        import griffe
+
+        names: set[str] = set()
+        for kind in ("Module", "Class", "Function", "Attribute", "TypeAlias"):
+            if hasattr(griffe, kind):
+                names |= set(dir(getattr(griffe, kind)("x")))
+        _PROXIED = names
+    return _PROXIED
+
+
+def consume(value) -> None:  # noqa: ANN001
+    """Containers are iterated (a lazily built view must be buildable), nothing is dereferenced beyond that."""
+    if isinstance(value, dict):
+        list(value.items())
+    elif isinstance(value, (list, tuple, set, frozenset)) or hasattr(value, "__next__"):
+        list(value)
+
+
+def recursion_inside(exc: BaseException, function: str) -> bool:
+    """The traceback is the named function re-entering itself: most of its _griffe frames are that function."""
+    names = []
+    tb = exc.__traceback__
+    while tb is not None:
+        code = tb.tb_frame.f_code
+        if "_griffe" in code.co_filename:
+            names.append(code.co_name)
+        tb = tb.tb_next
+    hits = sum(1 for n in names if n == function)
+    return hits >= 3 and hits * 5 >= len(names) * 3
 
 
 def shards(tier: str, seed: int) -> list[dict]:
@@ -93,6 +227,25 @@ def all_aliases(collection):  # noqa: ANN001
             if m.is_alias:
                 out.append(m)
             else:
+                walk(m)
+
+    for mod in list(collection.members.values()):
+        walk(mod)
+    return out
+
+
+def all_classes(collection) -> list:  # noqa: ANN001
+    """Real (non-alias) classes of the loaded tree, nested ones included."""
+    out, seen = [], set()
+
+    def walk(obj):  # noqa: ANN001
+        if id(obj) in seen:
+            return
+        seen.add(id(obj))
+        for m in list(obj.members.values()):
+            if not m.is_alias:
+                if m.is_class:
+                    out.append(m)
                 walk(m)
 
     for mod in list(collection.members.values()):
@@ -195,11 +348,13 @@ def classify(files: dict, descs: dict, exc: BaseException | None, order: list, e
     return None, tried
 
 
-def run_case(rec, files: dict, descs: dict | None, order: list[str], implicit: bool, external, steps) -> None:  # noqa: ANN001, C901, PLR0912, PLR0915
+def run_case(rec, files: dict, descs: dict | None, order: list[str], implicit: bool, external, steps, reference: bool = False) -> None:  # noqa: ANN001, C901, PLR0912, PLR0915
     import griffe
-    from _griffe.exceptions import AliasResolutionError, CyclicAliasError
+    from _griffe.exceptions import AliasResolutionError, BuiltinModuleError, CyclicAliasError
 
     case = {"files": files, "order": order, "implicit": implicit, "external": external}
+    if reference:   # the plain package: every alias resolvable, nothing cyclic or missing - no access may report an alias error
+        case["reference"] = True
     if descs is None:
         descs = describe_from_files(files)
     cyc = has_any_cycle(descs)
@@ -216,9 +371,10 @@ def run_case(rec, files: dict, descs: dict | None, order: list[str], implicit: b
     deferred: list[tuple[str, str]] = []
     loaded_now: list[str] = []
     call_mark, call_asked = [0], [None]
+    pulled_by_call: list[list[str]] = []  # the same, per resolve_aliases() call of the final three
     pulled_in: list[str] = []  # packages loaded by resolve_aliases itself (M-EXT: on_package_loaded inside the call)
     try:
-        with case_watchdog(120), tmp_tree(files) as root:
+        with case_watchdog(300), tmp_tree(files) as root:
             PACKAGES_LOADED.clear()
             WILDCARD_CREATED.clear()
             _KEEPALIVE.clear()
@@ -246,6 +402,7 @@ def run_case(rec, files: dict, descs: dict | None, order: list[str], implicit: b
                     call_mark[0], call_asked[0] = len(PACKAGES_LOADED), None
                     unresolved, iterations = loader.resolve_aliases(implicit=implicit, external=external)
                     pulled_in.extend(PACKAGES_LOADED[call_mark[0]:])  # packages this resolve call loaded on its own (external)
+                    pulled_by_call.append(list(PACKAGES_LOADED[call_mark[0]:]))
                     snaps.append((snapshot(loader.modules_collection), sorted(unresolved)))
                     by_path = {al.path: al for al in all_aliases(loader.modules_collection)}
                     for upath in sorted(unresolved):
@@ -265,6 +422,28 @@ def run_case(rec, files: dict, descs: dict | None, order: list[str], implicit: b
             finally:
                 n, depth = steps.end()
             rec.maximum("max_steps_load_and_resolve", n)
+            # a wildcard naming a module of its own package that is an alias (`import q as N` + `from p.N import *`) of a package
+            # not loaded up front: it can only be expanded once that package arrived - by whoever walks the module then
+            late = {d2["module"].split(".")[0] for mod, ds in flat.items() if mod.split(".")[0] in packages for d in ds
+                    if d["t"] == "wild" and "rel" not in d and d["module"].startswith(mod + ".")
+                    for d2 in ds if d2["t"] == "import" and d2.get("as") == d["module"][len(mod) + 1:]
+                    and d2["module"].split(".")[0] not in packages}
+            if late:
+                rec.count("wildcard_through_alias_of_package_not_loaded_up_front")
+                if late & set(pulled_in):
+                    rec.count("wildcard_through_alias_of_package_pulled_in_by_resolution")
+            if pulled_in:
+                # (M-EXT) packages nobody asked for arrived in the middle of a resolve_aliases() call; the deciding shape for
+                # the iteration-safety of the walkers: such a package wildcard-imports back from a package loaded up front
+                rec.count("packages_pulled_in_by_resolution", len(pulled_in))
+                if external is None:
+                    rec.count("private_sibling_pulled_in_with_external_none")
+                for mod, ds in flat.items():
+                    if mod.split(".")[0] in pulled_in and any(
+                            d["t"] == "wild" and "rel" not in d and d["module"].split(".")[0] in packages and d["module"].split(".")[0] not in pulled_in
+                            for d in ds):
+                        rec.count("pulled_in_package_wildcard_imports_back")
+                        break
             rec.maximum("max_stack_depth", depth)
             nmods = len(graphs.MODULES)
             if depth > 40 * (nmods + naliases + 1):
@@ -275,8 +454,9 @@ def run_case(rec, files: dict, descs: dict | None, order: list[str], implicit: b
             rec.count("fixpoint_comparisons", 2)
             for i in (1, 2):
                 if snaps[i][0] != snaps[0][0]:
+                    # (an unresolved alias is recorded as None: one that appears or disappears is a change too)
                     diff = {k: (snaps[0][0].get(k), snaps[i][0].get(k)) for k in set(snaps[0][0]) | set(snaps[i][0])
-                            if snaps[0][0].get(k) != snaps[i][0].get(k)}
+                            if snaps[0][0].get(k) != snaps[i][0].get(k) or (k in snaps[0][0]) != (k in snaps[i][0])}
                     # mechanism predicate: the later call only *added* aliases / resolved more (monotone progress), nothing
                     # that existed changed or disappeared, and the graph contains a wildcard import
                     # mechanism predicate: a wildcard placeholder left unexpanded by the first call was expanded by a later
@@ -285,12 +465,27 @@ def run_case(rec, files: dict, descs: dict | None, order: list[str], implicit: b
                             if k.startswith("placeholder:") and before is not None and after is None]
                     holders = {g.rsplit(".", 1)[0] for g in gone}
                     # ... or in a module that wildcard-imports (transitively) from such a module: the late names travel on
+                    # ... or, knock-on, in a module that imports in any form (transitively) from such a module: the late names
+                    # replace what a named import there used to reach (an alias chain that ended in an object now ends in an
+                    # alias delivered late, a submodule is shadowed by a late name, ...)
                     edges = graphs.wildcard_edges(_flatten(descs))
+                    pkgs_ = {rel[: -len("/__init__.py")].replace("/", ".") for rel in files if rel.endswith("/__init__.py")}
+                    imports_ = {m_: set() for m_ in flat}
+                    for m_, ds_ in flat.items():
+                        for d_ in ds_:
+                            if d_["t"] in ("from", "wild"):
+                                t_ = graphs.absolute(m_, d_, pkgs_)
+                                if t_:
+                                    imports_[m_].add(t_)
+                                    if d_["t"] == "from":
+                                        imports_[m_].add(f"{t_}.{d_['name']}")
+                            elif d_["t"] == "import":
+                                imports_[m_].add(d_["module"])
                     affected = set(holders)
                     grew = True
                     while grew:
                         grew = False
-                        for mod_, tgts in edges.items():
+                        for mod_, tgts in imports_.items():
                             if mod_ not in affected and tgts & affected:
                                 affected.add(mod_)
                                 grew = True
@@ -304,7 +499,17 @@ def run_case(rec, files: dict, descs: dict | None, order: list[str], implicit: b
 
                     # ... or is a mere resolution (unresolved before, resolved now): expanding a wildcard through an alias
                     # of a module dereferences that module's own aliases
+                    # ... or is an alias of a package that only arrived with this later call (the late expansion led on into it)
+                    arrived = {x for j in range(1, i + 1) for x in pulled_by_call[j]} if external is not False else set()
                     others_ok = all(k.startswith("placeholder:") or owner(k) in affected or (v[1] is not None and (v[0] is None or v[0][0] == "PARTIAL"))
+                                    or k.split(".")[0] in arrived
+                                    # ... or lies inside something that itself changed (a submodule shadowed by a late name
+                                    # takes its members out of the tree)
+                                    or any(".".join(k.split(".")[:cut]) in diff for cut in range(1, k.count(".") + 1))
+                                    # ... or is an alias whose chain ended / ends in something that changed or in an affected module
+                                    or any(t_ is not None and (owner(t_[1]) in affected or any(".".join(t_[1].split(".")[:cut]) in diff
+                                                                                            for cut in range(1, t_[1].count(".") + 2)))
+                                           for t_ in v)
                                     for k, v in diff.items())
                     fid = None
                     if gone and others_ok:
@@ -313,12 +518,24 @@ def run_case(rec, files: dict, descs: dict | None, order: list[str], implicit: b
                         # without such a nested load it is the expansion-order defect (repaired by ea4724e)
                         fid = ("C06-wildcards-not-expanded-again-after-external-load" if external is not False and pulled_in
                                else "C06-wildcard-late-expansion")
+                    # the same root (wildcards are expanded once per call, over the packages present when the call began) in its
+                    # other observed form: a package that arrived during an earlier call holds a wildcard into a package nobody
+                    # loaded yet; the pre-pass of THIS call walks it with the caller's `external` and loads that package.  Then
+                    # every change is an alias of the newly arrived package(s), or a mere resolution.
+                    earlier = set(pulled_in) - arrived
+                    if (not fid and not gone and arrived and external is not False
+                            and all(k.removeprefix("placeholder:").split(".")[0] in arrived or (v[1] is not None and v[0] is None)
+                                    for k, v in diff.items())
+                            and any(d_["t"] == "wild" and "rel" not in d_ and d_["module"].split(".")[0] in arrived
+                                    for m_, ds_ in flat.items() if m_.split(".")[0] in earlier for d_ in ds_)):
+                        fid = "C06-wildcards-of-pulled-in-package-followed-by-next-call"
                     if fid:
                         deferred.append((fid, f"resolve_aliases() call #{i + 1} changed the tree (not a fixpoint): " + str(sorted(diff))[:200]))
                         break   # a listed mechanism: go on with the other monitors of this case
                     rec.fail(case, f"resolve_aliases() call #{i + 1} changed the tree (not a fixpoint)",
                              observed={"changed": diff, "unresolved": [snaps[0][1], snaps[i][1]]},
-                             tried=["C06-wildcard-late-expansion", "C06-wildcards-not-expanded-again-after-external-load"], nontrivial=nontrivial, tags=tags)
+                             tried=["C06-wildcard-late-expansion", "C06-wildcards-not-expanded-again-after-external-load",
+                                    "C06-wildcards-of-pulled-in-package-followed-by-next-call"], nontrivial=nontrivial, tags=tags)
                     return
             # (3) all-or-nothing -------------------------------------------------------------
             stage = "all-or-nothing"
@@ -338,37 +555,100 @@ def run_case(rec, files: dict, descs: dict | None, order: list[str], implicit: b
                         return
             # (2) walker -------------------------------------------------------------------
             stage = "walker"
-            for al in all_aliases(loader.modules_collection):
-                rec.count("aliases_walked")
-                for acc in ACCESSORS:
-                    steps.begin(200_000)
+            soft = (AttributeError, ValueError, BuiltinModuleError)
+            proxied = proxied_names()
+            tally: dict[str, int] = {}
+            worst = [0]
+            views: list = []     # aliases that are not stored in the tree: member views of aliases, inherited members
+
+            def touch(al, origin: str) -> bool:  # noqa: ANN001, C901, PLR0912
+                """Read everything the alias offers; False = a violation was recorded (stop the case)."""
+                tally["aliases_walked"] = tally.get("aliases_walked", 0) + 1
+                tally[f"aliases_walked_{origin}"] = tally.get(f"aliases_walked_{origin}", 0) + 1
+                steps.begin(ACCESS_BUDGET)
+                for label, name, read in accessors():
+                    if steps.tripped:
+                        steps.begin(ACCESS_BUDGET)
+                    steps.count = steps.depth = 0    # the budget is per read; the events stay switched on for the whole alias
                     try:
-                        rec.count("accessor_calls")
-                        v = getattr(al, acc)
-                        if acc == "as_json":
-                            v()
-                        elif acc == "members":
-                            list(v)
+                        tally["accessor_calls"] = tally.get("accessor_calls", 0) + 1
+                        tally["acc:" + label] = tally.get("acc:" + label, 0) + 1
+                        try:
+                            v = read(al)
+                            consume(v)
+                        finally:   # what follows (handlers included) is not part of the read
+                            if steps.count > worst[0]:
+                                worst[0] = steps.count
+                            steps.count = 0
+                        if origin == "tree" and name in ("members", "inherited_members") and isinstance(v, dict) and len(views) < 4 * DERIVED_CAP:
+                            views.extend(("inherited-view" if name == "inherited_members" else "member-view", x) for x in v.values())
                     except AliasResolutionError:
-                        rec.count("accessor_raised_resolution_error")
+                        tally["accessor_raised_resolution_error"] = tally.get("accessor_raised_resolution_error", 0) + 1
+                        tally["unres:" + label] = tally.get("unres:" + label, 0) + 1
+                        if reference:
+                            rec.fail(case, f"{label} of the plain alias {al.path} raised AliasResolutionError", nontrivial=nontrivial, tags=tags)
+                            return False
                     except CyclicAliasError:
-                        rec.count("accessor_raised_cyclic_error")
+                        tally["accessor_raised_cyclic_error"] = tally.get("accessor_raised_cyclic_error", 0) + 1
+                        tally["cyc:" + label] = tally.get("cyc:" + label, 0) + 1
+                        if reference:
+                            rec.fail(case, f"{label} of the plain alias {al.path} raised CyclicAliasError", nontrivial=nontrivial, tags=tags)
+                            return False
                     except mon.StepBudgetExceeded as exc:
-                        if acc == "has_docstrings":  # same unbounded recursion, caught by the step budget before the stack limit
+                        if label == "has_docstrings" and recursion_inside(exc, "has_docstrings"):  # same unbounded recursion, caught by the step budget before the stack limit
                             deferred.append(("C06-has-docstrings-recursion", f"accessor has_docstrings of alias {al.path} exceeded its step budget"))
                             continue
-                        rec.fail_exc(case, f"accessor {acc} of alias {al.path} exceeded its step budget (loops?)", exc, nontrivial=nontrivial)
-                        return
+                        rec.fail_exc(case, f"accessor {label} of alias {al.path} ({origin}) exceeded its step budget (loops?)", exc, nontrivial=nontrivial, tags=tags)
+                        return False
+                    except soft as exc:
+                        # admissible only as the faithful answer of a resolvable alias: the same read on the object the
+                        # chain ends in gives the same kind of error (a function has no `bases`, a path outside the
+                        # working directory has no relative form, ...); never for what only aliases have
+                        same, direct = False, "not compared: the chain does not end in an object"
+                        if name in proxied:
+                            try:
+                                final = al.final_target
+                            except (AliasResolutionError, CyclicAliasError):
+                                final = None
+                            if final is not None:
+                                try:
+                                    consume(read(final))
+                                    direct = "a value"
+                                except mon.StepBudgetExceeded:
+                                    direct = "step budget exceeded"
+                                except Exception as exc2:  # noqa: BLE001
+                                    direct = type(exc2).__name__
+                                    same = type(exc2) is type(exc)
+                        else:
+                            direct = "not compared: real objects have no such attribute"
+                        if same:
+                            tally["soft_error_same_as_target"] = tally.get("soft_error_same_as_target", 0) + 1
+                            rec.add_to_set("errors_an_alias_shares_with_its_target", f"{label} of an alias to {final.kind.value}: {type(exc).__name__}")
+                            continue
+                        rec.fail_exc(case, f"accessor {label} of alias {al.path} ({origin}) raised {type(exc).__name__}; the same read on its "
+                                           f"final target gives: {direct}", exc, tried=["C06-has-docstrings-recursion"], nontrivial=nontrivial, tags=tags)
+                        return False
                     except Exception as exc:  # noqa: BLE001
-                        if acc == "has_docstrings" and isinstance(exc, RecursionError):
+                        if label == "has_docstrings" and isinstance(exc, RecursionError) and recursion_inside(exc, "has_docstrings"):
                             deferred.append(("C06-has-docstrings-recursion", f"accessor has_docstrings of alias {al.path} raised RecursionError"))
                             continue
-                        rec.fail_exc(case, f"accessor {acc} of alias {al.path} raised {type(exc).__name__}", exc,
+                        rec.fail_exc(case, f"accessor {label} of alias {al.path} ({origin}) raised {type(exc).__name__}", exc,
                                      tried=["C06-has-docstrings-recursion"], nontrivial=nontrivial, tags=tags)
-                        return
-                    finally:
-                        n2, d2 = steps.end()
-                        rec.maximum("max_steps_accessor", n2)
+                        return False
+                steps.end()
+                return True
+
+            def flush() -> None:
+                steps.end()
+                rec.maximum("max_steps_accessor", worst[0])
+                for k_, v_ in tally.items():
+                    rec.count(k_, v_)
+                tally.clear()
+
+            for al in all_aliases(loader.modules_collection):
+                if not touch(al, "tree"):
+                    flush()
+                    return
                 # after touching: a resolved alias must still have a fully resolved chain
                 if al.resolved:
                     t, ids, partial_known = al, set(), False
@@ -378,16 +658,48 @@ def run_case(rec, files: dict, descs: dict | None, order: list[str], implicit: b
                             if any(d[0] == "C06-wildcard-alias-preresolved" for d in deferred):
                                 partial_known = True  # already recorded as the listed mechanism for this case
                                 break
+                            flush()
                             rec.fail(case, f"alias {al.path} resolved with an unresolved link {t.path} in its chain (after dereferencing)", nontrivial=nontrivial)
                             return
                         t = t.target
                     if t.is_alias and not partial_known:  # cycle of resolved links: final_target must say so
                         try:
                             al.final_target  # noqa: B018
+                            flush()
                             rec.fail(case, f"resolved chain of {al.path} is a cycle but final_target returned", nontrivial=nontrivial)
                             return
                         except CyclicAliasError:
                             rec.count("resolved_cycle_reported_as_cyclic")
+            # aliases that exist only as views: what a class inherits (real classes of the tree), and the members /
+            # inherited members an alias shows of its target (collected above) - each of them is an Alias in its own right
+            inherited: list = []
+            for cls in all_classes(loader.modules_collection):
+                steps.begin(ACCESS_BUDGET)
+                try:
+                    inherited.extend(("inherited", x) for x in cls.inherited_members.values())
+                    tally["classes_asked_for_inherited_members"] = tally.get("classes_asked_for_inherited_members", 0) + 1
+                except (AliasResolutionError, CyclicAliasError):
+                    tally["inherited_members_raised_alias_error"] = tally.get("inherited_members_raised_alias_error", 0) + 1
+                except mon.StepBudgetExceeded as exc:
+                    flush()
+                    rec.fail_exc(case, f"inherited_members of class {cls.path} exceeded its step budget (loops?)", exc, nontrivial=nontrivial, tags=tags)
+                    return
+                except Exception as exc:  # noqa: BLE001
+                    flush()
+                    rec.fail_exc(case, f"inherited_members of class {cls.path} raised {type(exc).__name__}", exc, nontrivial=nontrivial, tags=tags)
+                    return
+                finally:
+                    steps.end()
+            # inherited ones first, then the views, interleaved fairly by a stride so that the cap does not always keep the same module
+            derived = inherited[:DERIVED_CAP // 2]
+            room = DERIVED_CAP - len(derived)
+            stride = max(1, len(views) // room) if room else 1
+            derived += views[::stride][:room]
+            for origin, al in derived:
+                if not touch(al, origin):
+                    flush()
+                    return
+            flush()
     except mon.StepBudgetExceeded as exc:
         rec.fail_exc(case, f"step budget exceeded during {stage}", exc, nontrivial=nontrivial, tags=tags)
         return
@@ -398,6 +710,12 @@ def run_case(rec, files: dict, descs: dict | None, order: list[str], implicit: b
         nested = [p for p in PACKAGES_LOADED[call_mark[0]:] if p != call_asked[0]]
         fid, tried = classify(files, descs, exc, loaded_now or [x for x in order if x != 'resolve'], external, nested)
         rec.fail_exc(case, f"{type(exc).__name__} escaped {stage}", exc, finding=fid, tried=tried, nontrivial=nontrivial, tags=tags)
+        return
+    except BaseException as exc:  # noqa: BLE001
+        if type(exc).__name__ != "CaseTimeout":
+            raise
+        steps.end()
+        rec.inconclusive(case, f"wall-clock watchdog fired during {stage} (the logical budgets were not exceeded)")
         return
     if deferred:  # the walk completed; the only refutations were of a listed mechanism (one record per case)
         rec.fail(case, deferred[0][1], observed=[d[1] for d in deferred][:5], finding=deferred[0][0], nontrivial=nontrivial, tags=tags)
@@ -521,9 +839,27 @@ def has_dangling(descs: dict) -> bool:
     return False
 
 
+# The plain package: aliases (import forms of every kind) of a package, a module, classes - with bases, members, inherited
+# members, an inheritance cycle -, a decorated function, a property, attributes; all resolvable.  Walked like every other case,
+# with the extra demand that no read reports an alias error: it shows, on the tree under test, which reads of a resolvable
+# alias answer with an AttributeError / ValueError and that these are the answers of the target itself.
+REFERENCE_FILES = {
+    "refpkg/__init__.py": '"""Package."""\nfrom refpkg.m import f, C, D, v, w, E1\nfrom refpkg import m as malias\nimport refpkg.sub as subalias\n'
+                          'from refpkg.sub import n as nn\nfrom refpkg.sub.n import *\n__all__ = ["f", "C", "D", "v", "malias", "g"]\n',
+    "refpkg/m.py": '"""Module."""\nfrom refpkg.sub.n import Base\n\ndef deco(fn): return fn\n\n@deco\ndef f(a: int, *b: str, c=1, **d) -> bool:\n    """F."""\n\n'
+                   'class C(Base):\n    """C."""\n    x: int = 1\n    """x."""\n    from refpkg.sub.n import g\n    def meth(self): ...\n'
+                   '    @property\n    def prop(self) -> int: ...\n    @prop.setter\n    def prop(self, value): ...\n    class Inner: ...\n\n'
+                   'class D(C, Base): ...\n\nclass E1(E2): ...\nclass E2(E1): ...\n\nv: int = 3\n"""v."""\nw = v\n',
+    "refpkg/sub/__init__.py": "from . import n\n",
+    "refpkg/sub/n.py": 'class Base:\n    b = 0\n    def inherited(self): ...\n\ndef g(): ...\n',
+}
+
+
 def run_shard(spec: dict, rec) -> None:  # noqa: ANN001
     rng = random.Random(spec["seed"])
     steps = mon.Steps()
+    run_case(rec, REFERENCE_FILES, None, ["refpkg"], True, False, steps, reference=True)
+    rec.count("reference_packages_walked")
     for _ in range(spec["count"]):
         r = rng.random()
         if r < 0.25:
@@ -542,6 +878,16 @@ def run_shard(spec: dict, rec) -> None:  # noqa: ANN001
                 order = [*order[:1], "resolve", *order[1:]]
             run_case(rec, files, None, order, rng.random() < 0.7, rng.choice([True, True, True, None, False]), steps)
             continue
+        elif r < 0.65:
+            # 2-4 packages importing from each other (wildcards, names, both; cycles), a subset loaded explicitly: the others
+            # arrive in the middle of wildcard expansion / resolution and import back from the objects being walked
+            files, pkgs, order = graphs.gen_extmix(rng)
+            rec.count("external_mix_graphs")
+            if rng.random() < 0.3:
+                cut = rng.randint(1, len(order))
+                order = [*order[:cut], "resolve", *order[cut:]]
+            run_case(rec, files, None, order, rng.random() < 0.7, rng.choice([True, True, None, None, False]), steps)
+            continue
         else:
             files, descs = graphs.gen_graph(rng, hostile=spec["hostile"])
         order = rng.choice([["p", "q"], ["q", "p"], ["p"], ["q", "p"], ["p", "resolve", "q"], ["q", "resolve", "p"],
@@ -552,7 +898,7 @@ def run_shard(spec: dict, rec) -> None:  # noqa: ANN001
 
 
 def run_replay(inp: dict, rec) -> None:  # noqa: ANN001
-    run_case(rec, inp["files"], None, inp["order"], inp["implicit"], inp["external"], mon.Steps())
+    run_case(rec, inp["files"], None, inp["order"], inp["implicit"], inp["external"], mon.Steps(), reference=bool(inp.get("reference")))
 
 
 def run_pinned(findings: list[dict], rec) -> dict:  # noqa: ANN001
